@@ -30,6 +30,8 @@ def generate(rng, tier, idx):
             # the object whose later dumps are refused was LOADED from the good copy (not built through the API)
             ops.append({"op": "restart", "path": path, "via": pick(rng, ["path", "handle", "loads"]), "offset": rng.randint(0, 500)})
         ops.append(kit.mutation(K, rng))
+        if rng.random() < 0.2:
+            ops.append({"op": "fs_alias", "path": path, "how": pick(rng, ["symlink", "hardlink"])})
     enum = {"op": "c18_enum", "path": path, "cap": 64 if tier == "quick" else None}
     mv = kit.dump_op(K, rng, main_variant="random").get("main_variant")     # TreeInfo.dump has its own main_variant path
     if mv is not None:
